@@ -212,6 +212,16 @@ CHECKS['C08'] = dict(
     design_ref='DESIGN.md section 4, C08', note=BOUNDED_NOTE + '; token-level abstraction of the cursor assumed (next-lemma proved); refuted or undecided obligations are replayed on the real code (bounded/view_replay.py)',
     technique='contract-based deductive verification of the AUTO printer and reader against a common token-level spec (PyVC, structural induction via recursive-call contracts, string lemma by z3/cvc5); bounded run-time contract for the rest',
 )
+CHECKS['C20'] = dict(
+    category='exploration',
+    text=('Deductive part, Japanese half (PyVC on the real printer/ja.py and tools/ja/reader.py): printer and reader are proved against one piece-level specification jtoks(t) of the bank text (opening piece, blank, '
+          'category field, leaf body, closing brace). ja_of.rec returns text whose pieces are jtoks(node); _JaCCGLineReader.parse_leaf / parse_tree (next_node inlined), given jtoks(t) at the cursor, return a tree iso to t '
+          '(shape, category text, rule symbol, word) and leave the cursor behind it; recursive calls are replaced by the contracts (structural induction). Lemma next-lemma-ja: the real body of next(target) returns a piece '
+          'without the target followed by the target and skips it (z3/cvc5 strings). The cursor methods are used through an assumed piece-level abstraction with shape obligations at every use. The PTB half (stack reader), '
+          'bank annotations on categories and the incomplete-line clause are decided BOUNDED on the real code (two known findings on bracket tokens in PTB).'),
+    design_ref='DESIGN.md section 4, C20', note=BOUNDED_NOTE + '; piece-level abstraction of the cursor assumed (next-lemma-ja proved); refuted or undecided obligations are replayed on the real code when a replay exists',
+    technique='contract-based deductive verification of the Japanese bank printer and reader against a common piece-level spec (PyVC, structural induction via recursive-call contracts, string lemma by z3/cvc5); bounded run-time contract for PTB and annotations',
+)
 
 NA_REASON = {}
 
@@ -243,7 +253,7 @@ def main():
                            'parsing.h with g++ themselves (vc/harness.py) and set DEPCCG_VERIF=1 for the bounded C01 run; the deductive obligations do not use it'),
                    baseline_off_cmd='cd /repo && env -u DEPCCG_VERIF /venv/bin/python -m pytest -ra -q -p no:cacheprovider --timeout=900 --continue-on-collection-errors',
                    source_commits=['0b0a8cf'], add_only=True),
-        engines=[dict(name='pyvc', path='/verif/vc/pyvc.py', serves_properties=['C03', 'C04', 'C05', 'C06', 'C07', 'C08', 'C11', 'C12', 'C13', 'C14', 'C15', 'C17'],
+        engines=[dict(name='pyvc', path='/verif/vc/pyvc.py', serves_properties=['C03', 'C04', 'C05', 'C06', 'C07', 'C08', 'C11', 'C12', 'C13', 'C14', 'C15', 'C17', 'C20'],
                       kind_free_text='verification-condition generator (symbolic execution of the python ast of the real source, sidecar contracts in /verif/contracts) + z3/cvc5'),
                  dict(name='cxxvc', path='/verif/vc/cxxvc.py', serves_properties=['C01', 'C02', 'C09', 'C10', 'C11', 'C12', 'C16'],
                       kind_free_text='verification-condition generator over clang\'s JSON AST of depccg/parsing.h (invariant rule over the search loop) + z3/cvc5'),
